@@ -268,8 +268,9 @@ def run(ctx):
         "kdf-values: two HKDF keys exchanged -> not consecutive slices")
     add(lambda t: t["alg"] == "sp108" and t["num_keys"] >= 2 and t["key_len"] >= 1 and t["exc"] == "none", flip_key,
         "kdf-values: one bit of the last SP 800-108 key (and of the single-key stream)")
-    add(lambda t: t["alg"] == "hkdf" and t["exc"] == "ValueError", unrefuse, "kdf-values: HKDF refusal of an over-long output -> returned")
-    add(lambda t: t["alg"] == "scrypt" and t["exc"] == "ValueError", unrefuse, "kdf-values: scrypt refusal -> returned")
+    add(lambda t: t["alg"] == "hkdf" and t["exc"] == "ValueError" and t["key_len"] * t["num_keys"] > 0, unrefuse,
+        "kdf-values: HKDF refusal of an over-long output -> returned")
+    add(lambda t: t["alg"] == "scrypt" and t["exc"] == "ValueError" and t["key_len"] * t["num_keys"] > 0, unrefuse, "kdf-values: scrypt refusal -> returned")
     add(lambda t: t["alg"] == "pbkdf1" and t["exc"] == "none" and t["dklen"] > 0, refuse, "kdf-values: PBKDF1 value -> refusal inside the domain")
     add(lambda t: t["alg"] == "bcrypt_check" and t["exc"] == "ValueError" and t["ref"]["has"], unrefuse, "kdf-values: bcrypt_check rejection of a changed hash -> accepted")
     add(lambda t: t["alg"] == "bcrypt_check" and t["exc"] == "none", refuse, "kdf-values: bcrypt_check acceptance of the genuine pair -> rejected")
